@@ -303,6 +303,44 @@ def run(facts, R):
             g4 = gt(x)
             R.check(any("contains_key(" in z and z.endswith("is False") for z in g4), "alias-pairing", ab.path, "false only for an absent peer", "alias returns false under %s" % g4, st.get("span"))
 
+    # every forward insert, whoever makes it (an insert-and-alias convenience, a bulk alias, a rename): `aliases.insert(key, id)` hands
+    # back the key's previous owner, and unless that is looked at - and, when it is another peer, the key taken out of that peer's
+    # reverse list - the two maps disagree: aliases_for(prev) still lists a key that resolves to someone else
+    n_fw = 0
+    for b in facts.bodies.values():
+        if not (b.path.startswith("peer::") or b.path.startswith("<peer::")):
+            continue
+        bs_ = Sym(b)
+        for i, t in b.calls():
+            if t["callee"]["name"] != "insert" or "HashMap" not in t["callee"]["path"] or len(t["args"]) != 3:
+                continue
+            if not render(bs_.op(t["args"][0])).endswith(".aliases"):
+                continue
+            n_fw += 1
+            dl = t["dest"]["l"] if not t["dest"]["p"] else None
+            looked = False
+            if dl is not None:
+                for x in sorted(b.live_blocks()):
+                    for st_ in b.blocks[x]["stmts"]:
+                        if st_["k"] == "assign":
+                            rv_ = st_["rv"]
+                            pls_ = [rv_[k_] for k_ in ("ref", "discr", "use") if k_ in rv_ and isinstance(rv_[k_], dict)]
+                            for p_ in pls_:
+                                q_ = p_ if "l" in p_ else op_place(p_)
+                                if q_ is not None and q_.get("l") == dl:
+                                    looked = True
+                    tt = b.term(x)
+                    if tt["k"] == "call" and any((op_place(a_) or {}).get("l") == dl for a_ in tt["args"]):
+                        looked = True
+                    if tt["k"] == "switch" and (op_place(tt["on"]) or {}).get("l") == dl:
+                        looked = True
+            retains = [ri for ri, rt in b.calls() if rt["callee"]["name"] in ("retain", "retain_mut") and "alias_index" in render(bs_.op(rt["args"][0])) and ri in b.reachable((i,))]
+            R.check(looked and bool(retains), "alias-pairing", b.path, "a forward insert settles the key's previous owner",
+                    "%s inserts into `aliases` and %s: when the key was already addressing another peer, that peer's reverse list keeps a key that now resolves to "
+                    "someone else (aliases_for / key_for disagree with get_by)" % (b.path.rsplit("::", 1)[-1], "drops the previous owner that insert returns" if not looked
+                                                                                    else "never filters the previous owner's alias_index list"), t.get("span"), "prev looked at, alias_index[prev].retain reachable")
+    R.floor("alias-pairing", n_fw, 1, "inserts into the forward alias map")
+
     # alias-order: a peer's alias list is only appended to (push) or filtered in place (retain / Vec::remove, which keep
     # the relative order); any reordering operation breaks "in assignment order"
     REORDER = ("swap_remove", "sort", "sort_by", "sort_by_key", "sort_unstable", "sort_unstable_by", "sort_unstable_by_key", "reverse", "rotate_left",
